@@ -26,6 +26,10 @@ type c07Req struct {
 	// CancelWithRec (pub2 only): PUBREC is sent and the caller's context is cancelled at the same moment. Whatever the
 	// select picks, the call cannot succeed: no PUBCOMP was ever sent.
 	CancelWithRec bool `json:"cancelWithRec,omitempty"`
+	// IDBehind > 0 (publishes): the Message carries an identifier of its own, IDBehind below the client's counter - a
+	// Message value re-used after an earlier publish keeps its old identifier. It is used unchanged and must not influence
+	// the identifiers the client chooses for the other requests.
+	IDBehind int `json:"idBehind,omitempty"`
 }
 
 type c07Item struct {
@@ -33,6 +37,7 @@ type c07Item struct {
 	Req    int    `json:"req,omitempty"`
 	Type   int    `json:"type,omitempty"` // ack packet type for foreign items
 	Yields int    `json:"yields,omitempty"`
+	Glue   bool   `json:"glue,omitempty"` // unsolicited: sent in one buffer with the packet that follows it
 }
 
 type c07Case struct {
@@ -58,11 +63,23 @@ func c07Gen(rt *rapid.T) c07Case {
 			}
 		}
 		q.Cancel = rapid.IntRange(0, 5).Draw(rt, "cancel") == 0
+		if (q.Kind == "pub1" || q.Kind == "pub2") && rapid.IntRange(0, 4).Draw(rt, "reused") == 0 {
+			q.IDBehind = rapid.IntRange(1, 200).Draw(rt, "idBehind")
+		}
 		if q.Kind == "pub2" && !q.Cancel {
 			q.CancelWithRec = rapid.IntRange(0, 3).Draw(rt, "cancelWithRec") == 0
 		}
 		return q
 	}), 1, 8).Draw(rt, "reqs")
+	seenBehind := map[int]bool{}
+	for i := range c.Reqs {
+		if b := c.Reqs[i].IDBehind; b > 0 {
+			if seenBehind[b] {
+				c.Reqs[i].IDBehind = 0
+			}
+			seenBehind[b] = true
+		}
+	}
 	// at most one wrong-length SUBACK, and it is answered last (the client then drops the link)
 	if rapid.IntRange(0, 5).Draw(rt, "wrongLen") == 0 {
 		for i := len(c.Reqs) - 1; i >= 0; i-- {
@@ -95,6 +112,7 @@ func c07Gen(rt *rapid.T) c07Case {
 			it.Op, it.Req = "dupack", rapid.IntRange(0, n-1).Draw(rt, "r")
 		default:
 			it.Op, it.Type = "unsolicited", rapid.SampledFrom([]int{rtConnAck, rtPingResp}).Draw(rt, "t")
+			it.Glue = rapid.Bool().Draw(rt, "glue")
 		}
 		return it
 	}), 0, 10).Draw(rt, "foreign")
@@ -155,6 +173,13 @@ func c07Run(tb rapid.TB, c c07Case) {
 		atomic.StoreUint32(&r.cli.idLast, uint32(0xFFFF-c.WrapIn+1))
 	}
 	n := len(c.Reqs)
+	idBase := uint16(atomic.LoadUint32(&r.cli.idLast))
+	ownID := func(q c07Req) uint16 {
+		if q.IDBehind == 0 {
+			return 0
+		}
+		return idBase - uint16(q.IDBehind) // (0 means "choose one": harmless)
+	}
 	st := make([]*c07State, n)
 	rctx := make([]context.Context, n)
 	rcancel := make([]context.CancelFunc, n)
@@ -183,9 +208,9 @@ func c07Run(tb rapid.TB, c c07Case) {
 			var subs []Subscription
 			switch q.Kind {
 			case "pub1":
-				err = r.cli.Publish(rctx[i], &Message{Topic: tag, QoS: QoS1, Payload: []byte("p")})
+				err = r.cli.Publish(rctx[i], &Message{Topic: tag, QoS: QoS1, Payload: []byte("p"), ID: ownID(q)})
 			case "pub2":
-				err = r.cli.Publish(rctx[i], &Message{Topic: tag, QoS: QoS2, Payload: []byte("p")})
+				err = r.cli.Publish(rctx[i], &Message{Topic: tag, QoS: QoS2, Payload: []byte("p"), ID: ownID(q)})
 			case "sub":
 				req := []Subscription{{Topic: tag, QoS: QoS2}}
 				for k := 1; k < q.NFilters; k++ {
@@ -274,6 +299,7 @@ func c07Run(tb rapid.TB, c c07Case) {
 	finalType := map[string]int{"pub1": rtPubAck, "pub2": rtPubComp, "sub": rtSubAck, "unsub": rtUnsubAck}
 
 	foreignCount := 0
+	var glued []refPacket // an unsolicited packet to be sent in one buffer with the marker that follows it
 	outstandingAtFirstAck := -1
 	disconnected := false
 	for si, it := range c.Script {
@@ -394,10 +420,16 @@ func c07Run(tb rapid.TB, c c07Case) {
 			}
 			r.peer.send(ackPkt(s.sentTypes[len(s.sentTypes)-1], s.id))
 		case "unsolicited":
-			r.peer.send(refPacket{Type: it.Type})
+			if it.Glue {
+				glued = []refPacket{{Type: it.Type}}
+			} else {
+				r.peer.send(refPacket{Type: it.Type})
+			}
 		}
 		foreignCount++
-		if !r.peer.sync(20 * time.Second) {
+		ok := r.peer.syncBehind(20*time.Second, glued)
+		glued = nil
+		if !ok {
 			fail("client stopped processing after foreign item %+v; Err()=%v", it, r.cli.Err())
 		}
 		checkBlocked(fmt.Sprintf("after foreign item %+v", it))
